@@ -223,14 +223,72 @@ def build_session(sid, inp, letters=AA, api=None, with_output=True, with_interna
             events.append(dict(op="Output", raised=False, dense=dense))
         except Exception as e:    # noqa: BLE001
             events.append(dict(op="Output", raised=True, dense=[], exc=type(e).__name__ + ": " + str(e)[:200]))
-    return dict(sid=sid, inp=inp, api=api or "", letters=letters, events=events)
+    return dict(sid=sid, inp=inp, api=api or "", letters=letters, events=events, kind="plain",
+                with_output=with_output, with_internal=with_internal)
+
+
+def _snapshot(db):
+    import copy
+    d = getattr(db, "variant_dict", None)
+    if d is None:
+        d = getattr(db, "seq_dict", None)
+    return copy.deepcopy((list(db.seqs), d, getattr(db, "max_edits", None)))
+
+
+def build_db_session(sid, inp, lookups, letters=AA, with_internal=True):
+    """C03 histories: one database object (SymdelDB / LookupDB), several lookups. inp.seqs2 is the first query list,
+    lookups the further ones (lists of code lists)."""
+    import pyrepseq.nn as nn
+    ref = [dec(x, letters) for x in inp["seqs"]]
+    eng = inp["engine"]
+    events = [dict(op="CheckInput", raised=False)]
+    events.append(_index_events(inp, letters) if with_internal else dict(op="Build", logged=False))
+    kw = {}
+    if inp["mode"] == "hamming":
+        kw["custom_distance"] = "hamming"
+    elif inp["mode"] == "custom":
+        kw["custom_distance"] = cd_function(inp["cd"])
+        kw["max_custom_distance"] = float("inf") if inp["maxc"] >= INF else inp["maxc"] / 4.0
+    db = nn.SymdelDB(ref, inp["k"]) if eng == "symdel" else nn.LookupDB(ref)
+    api = "SymdelDB" if eng == "symdel" else "LookupDB"
+    if eng == "hash":
+        kw["max_edits"] = inp["k"]
+    first = True
+    for q in [inp["seqs2"]] + list(lookups):
+        qs = [dec(x, letters) for x in q]
+        before = _snapshot(db)
+        raised, ret, dense = None, [], []
+        try:
+            ret = norm_triplets(db.lookup(qs, **kw), inp["mode"])
+        except Exception as e:     # noqa: BLE001
+            raised = e
+        changed = _snapshot(db) != before
+        if not first:
+            events.append(dict(op="NewLookup", seqs2=q, db_changed=False))
+        events.append(dict(op="Join", raised=raised is not None, ret=ret, db_changed=changed,
+                           exc=(type(raised).__name__ + ": " + str(raised)[:200]) if raised is not None else ""))
+        try:
+            dense = norm_dense(db.lookup(qs, output_type="ndarray", **kw), inp["mode"])
+            events.append(dict(op="Output", raised=False, dense=dense))
+        except Exception as e:     # noqa: BLE001
+            events.append(dict(op="Output", raised=True, dense=[], exc=type(e).__name__ + ": " + str(e)[:200]))
+        first = False
+    return dict(sid=sid, inp=inp, api=api, letters=letters, events=events, kind="db", lookups=list(lookups),
+                with_internal=with_internal)
+
+
+def rebuild_session(s):
+    if s.get("kind") == "db":
+        return build_db_session(s["sid"], s["inp"], s["lookups"], letters=s["letters"], with_internal=s.get("with_internal", True))
+    return build_session(s["sid"], s["inp"], letters=s["letters"], api=s["api"] or None,
+                         with_output=s.get("with_output", True), with_internal=s.get("with_internal", True))
 
 
 # ------------------------------------------------------------------ validating sessions with TLC
 
 TRACE_CFG_TEMPLATE = """SPECIFICATION TraceSpec
 CONSTANTS
-  Letters = {{0}}
+  Letters = {letters}
   MaxLen = 0
   MaxN = 1000000
   MaxN2 = 0
@@ -250,7 +308,7 @@ CHECK_DEADLOCK FALSE
 
 
 def validate_sessions(ctx, sessions, invariants=("Exact", "NoRepeat", "NoSelf"), workers=16,
-                      count=True, timeout=1800):
+                      count=True, timeout=1800, letters=None):
     """Run TraceNN over the sessions. Returns {sid: [ {l, op, failed[]} ... ]}."""
     if not sessions:
         return {}
@@ -261,7 +319,8 @@ def validate_sessions(ctx, sessions, invariants=("Exact", "NoRepeat", "NoSelf"),
             json.dump([dict(sid=s["sid"], inp=s["inp"], events=s["events"]) for s in sessions], f)
         cfg = os.path.join(d, "TraceNN.cfg")
         with open(cfg, "w") as f:
-            f.write(TRACE_CFG_TEMPLATE.format(invariants="\n".join(f"INVARIANT {i}" for i in invariants)))
+            lset = "{" + ", ".join(str(x) for x in sorted(letters or [0])) + "}"
+            f.write(TRACE_CFG_TEMPLATE.format(letters=lset, invariants="\n".join(f"INVARIANT {i}" for i in invariants)))
         res = tlc.run("TraceNN", cfg, workers=min(workers, max(1, len(sessions))), env={"PV_TRACE_FILE": tf},
                       timeout=timeout)
     finally:
@@ -313,8 +372,12 @@ def compare_case(doc, letters=AA, api=None):
         api_bad.append(("Join", "repeated", str(got)[:300]))
     gs, ws = set(got), set(want)
     gp, wp = {(a, b) for a, b, _ in gs}, {(a, b) for a, b, _ in ws}
-    if wp - gp:
-        api_bad.append(("Join", "missing_pair", str(sorted(wp - gp))[:300]))
+    miss = wp - gp
+    if inp["two"] and any(a == b for a, b in miss):
+        api_bad.append(("Join", "missing_pair_equal_positions", str(sorted(p for p in miss if p[0] == p[1]))[:300]))
+        miss = {p for p in miss if p[0] != p[1]}
+    if miss:
+        api_bad.append(("Join", "missing_pair", str(sorted(miss))[:300]))
     if gp - wp:
         api_bad.append(("Join", "spurious_pair", str(sorted(gp - wp))[:300]))
     if (gs - ws) and not (gp - wp) and not (wp - gp):
